@@ -1,7 +1,7 @@
 """C07 — I/O proportionality."""
 import numpy as np
 
-from .. import env, core, gen, files, readcheck, readops, iolog, spec, synth
+from .. import env, core, gen, files, readcheck, readops, iolog, spec, synth, symcodec
 from seismic_zfp.read import SgzReader  # noqa: E402
 
 ASSUMPTIONS = ["range reads observed at the file / blob object the reader is given (public constructor paths)",
@@ -66,6 +66,55 @@ def header_and_open_io(ctx, fi, rng, model=None):
         s.close()
 
 
+def diagonal_chunk_corr(ctx, model, fi, rng):
+    """K: Model/Lru.fetched (the chunks a diagonal read fetches through a chunk LRU of a given capacity) vs the chunks the
+    real reader fetches (`_read_containing_chunk` -> `read_subvolume(..., access_padding=True)` calls), for the smallest
+    capacities and the default one; O: no chunk fetched twice within the call"""
+    from seismic_zfp.read import SgzReader
+    n0, n1, _ = fi.n
+    b0, b1, _ = fi.lay.bs
+    for cap in (1, 2, None, 3):
+        kind = 'cd' if rng.random() < .5 else 'ad'
+        if kind == 'cd':
+            c = int(rng.integers(-n1 + 1, n0))
+            L = readops.cd_len(c, n0, n1)
+        else:
+            c = int(rng.integers(0, n0 + n1 - 1))
+            L = readops.ad_len(c, n0, n1)
+        lo, hi = (0, L) if rng.random() < .5 else sorted(rng.choice(L + 1, size=2, replace=False).tolist()) if L >= 1 else (0, 0)
+        if hi <= lo:
+            continue
+        with symcodec.symbolic_decoder():
+            r = SgzReader(fi.path, chunk_cache_size=cap)
+            try:
+                calls = []
+                real_sub = r.read_subvolume
+
+                def rec(*a, **k):
+                    if k.get('access_padding'):
+                        calls.append((int(a[0]), int(a[2])))
+                    return real_sub(*a, **k)
+                r.read_subvolume = rec
+                real_cap = r._read_containing_chunk_cached.cache_info().maxsize
+                if kind == 'cd':
+                    r.read_correlated_diagonal(c, lo, hi)
+                else:
+                    r.read_anticorrelated_diagonal(c, lo, hi)
+            finally:
+                r.close()
+        desc = {'n': fi.n, 'bs': fi.lay.bs, 'diagonal': (kind, c, lo, hi), 'chunk_cache_size': cap}
+        ctx.case(('diag-chunks', fi.n, fi.lay.bs, kind, c, lo, hi, cap), sample=desc if len(ctx.samples) < 8 else None)
+        ctx.stats['diagonal_chunk_sequences'] += 1
+        if len(set(calls)) != len(calls):
+            ctx.fail(f'{kind} diagonal {c} [{lo}:{hi}) with chunk_cache_size={cap}: a chunk was fetched twice within the call: '
+                     f'{calls[:12]}', desc)
+        ctx.stats['corr_requests'] += 1
+        ans = model.ask(f'lru {cap or 0} {n0} {n1} {b0} {b1} {kind} {c} {lo} {hi}')
+        real = f'{real_cap} ' + ','.join(f'{a}:{b}' for a, b in calls)
+        if ans != real:
+            ctx.corr_fail('Model.Lru/fetched', f'lru {cap or 0} {n0} {n1} {b0} {b1} {kind} {c} {lo} {hi}', ans[:200], real[:200], desc)
+
+
 def run(ctx):
     model = core.Model()
     rng = gen.rng_for(ctx.seed, 'c07')
@@ -73,7 +122,11 @@ def run(ctx):
     try:
         for k, fi in enumerate(files.read_files(ctx, rng, n_files, max_voxels=ctx.n(40_000, 150_000))):
             for blob in ((False, True) if k % 3 == 0 else (False,)):
-                s = readcheck.ReadSession(fi, blob=blob)
+                # (the reader's chunk cache at its smallest sizes too: a diagonal visits its chunks in monotone order, so
+                #  even one slot must keep every byte from being fetched twice -- Props/C07.diagonal_fetches_each_chunk_once)
+                ccs = [None, 1, 2, None][(k // 3) % 4]
+                ctx.stats['chunk_cache_size_' + str(ccs)] += 1
+                s = readcheck.ReadSession(fi, blob=blob, chunk_cache_size=ccs)
                 try:
                     ops = readcheck.in_range_ops(rng, fi, ctx.n(2, 4))
                     ops = [o for o in ops if o[0] not in ('vol',)] + ([('vol',)] if not fi.is2d else [])
@@ -84,6 +137,8 @@ def run(ctx):
                     s.close()
             if k % 4 == 0:
                 header_and_open_io(ctx, fi, rng, model)
+            if not fi.is2d and k % 2 == 1:
+                diagonal_chunk_corr(ctx, model, fi, rng)
         # legacy files with ONE header block (format 0.0.x: no SEG-Y file-header block): open and reads, both backends
         for k in range(ctx.n(6, 60)):
             n, bs, q = gen.geometry_3d(rng, klass='default', max_voxels=20_000)
